@@ -133,6 +133,66 @@ fn ops(a: &Args, p: &str, n: usize) -> common::Ops {
   o
 }
 
+/// Replay search for the BMOC harnesses: their symbolic domain is small enough to be enumerated natively (all valid operands of the
+/// harness shape, all probe cells). Used when Kani prints no concrete-playback test for the failed check, or when the exact inputs do
+/// not reproduce (dev-profile-only failures). This is a search for a witness, not the deciding step.
+fn gen_ops(dm: u8, n: usize, k: usize, cur: &mut common::Ops, start: u64, f: &mut dyn FnMut(&common::Ops)) {
+  if k == n { f(cur); return; }
+  // next entry must start at or after `start` (deepest-level units)
+  for d in 0..=dm {
+    let sh = 2 * (dm - d) as u32;
+    let nh = 12u64 << (2 * d as u32);
+    let first = (start + (1u64 << sh) - 1) >> sh;
+    let mut h = first;
+    while h < nh {
+      for fl in [false, true].iter() {
+        cur.d[k] = d; cur.h[k] = h; cur.f[k] = *fl;
+        gen_ops(dm, n, k + 1, cur, (h + 1) << sh, f);
+      }
+      h += 1;
+    }
+  }
+}
+
+fn bmoc_search(a: &Args) {
+  let (op, mode) = (a.u8("op"), a.u8("mode"));
+  let (na, nb) = (a.u64("na") as usize, a.u64("nb") as usize);
+  let (dma, dmb) = (a.u8("a_dm"), a.u8("b_dm"));
+  let dm = if op == 0 || dma >= dmb { dma } else { dmb };
+  let mut oa = common::Ops { dm: dma, n: na, d: [0; 4], h: [0; 4], f: [false; 4] };
+  let mut budget: u64 = 40_000_000;
+  gen_ops(dma, na, 0, &mut oa, 0, &mut |x: &common::Ops| {
+    let xa = *x;
+    let mut ob = common::Ops { dm: dmb, n: if op == 0 { 0 } else { nb }, d: [0; 4], h: [0; 4], f: [false; 4] };
+    let nbb = ob.n;
+    gen_ops(dmb, nbb, 0, &mut ob, 0, &mut |y: &common::Ops| {
+      if budget == 0 { return; }
+      // a few probe cells are enough to see a wrong map: every cell start / end of both operands, plus a coarse scan
+      let nh = 12u64 << (2 * dm as u32);
+      let step = if nh > 48 { nh / 48 } else { 1 };
+      let mut c = 0u64;
+      while c < nh {
+        budget = budget.saturating_sub(1);
+        c07::p_bmoc_op(op, mode, &xa, y, c);
+        c += step;
+      }
+      for k in 0..xa.n { let sh = 2 * (dm - xa.d[k]) as u32; c07::p_bmoc_op(op, mode, &xa, y, xa.h[k] << sh); c07::p_bmoc_op(op, mode, &xa, y, ((xa.h[k] + 1) << sh) - 1); }
+      for k in 0..y.n { let sh = 2 * (dm - y.d[k]) as u32; c07::p_bmoc_op(op, mode, &xa, y, y.h[k] << sh); c07::p_bmoc_op(op, mode, &xa, y, ((y.h[k] + 1) << sh) - 1); }
+    });
+  });
+}
+
+fn pack_search(a: &Args) {
+  let n = a.u64("na") as usize;
+  let dm = a.u8("a_dm");
+  let mut oa = common::Ops { dm, n, d: [0; 4], h: [0; 4], f: [false; 4] };
+  gen_ops(dm, n, 0, &mut oa, 0, &mut |x: &common::Ops| {
+    let nh = 12u64 << (2 * dm as u32);
+    for k in 0..x.n { let sh = 2 * (dm - x.d[k]) as u32; c07::p_pack(x, x.h[k] << sh); }
+    c07::p_pack(x, 0); c07::p_pack(x, nh - 1);
+  });
+}
+
 fn dispatch(name: &str, a: &Args) -> bool {
   // returns false if the function name is unknown
   match name {
@@ -185,6 +245,8 @@ fn dispatch(name: &str, a: &Args) -> bool {
     "c03_guard" => c03::p_c03_guard(a.u8("depth"), a.u8("which"), a.u64("h")),
     "c19_pullback" => c19::p_c19_pullback(a.u8("depth"), a.f64("x"), a.f64("y")),
     "c14_dirs" => c14::p_c14_dirs(a.u8("depth"), a.u64("a"), a.u8("k")),
+    "bmoc_op_search" => bmoc_search(a),
+    "bmoc_pack_search" => pack_search(a),
     _ => return false,
   }
   true
